@@ -111,3 +111,21 @@ Definition check_valid (cs : valid_case) : N :=
   (* oracle: an accepted vector is well formed and no consumer panicked on it *)
   if iacc && (ipanic || negb safe) then V_VIOLATION
   else if Bool.eqb (validate_rsv (VC gen_vc_lens gen_vc_bounds_all gen_vc_sorted) maxd true v) iacc then V_OK else V_MISMATCH.
+
+(* range requests: (max_blocks_per_request, from, to, impl accepted?, impl panicked?) *)
+Definition breq_case := (N * N * N * bool * bool)%type.
+Definition check_breq (cs : breq_case) : N :=
+  let '(maxb, f, t, iacc, ipanic) := cs in
+  (* oracle: no panic; an accepted request is ordered and within the limit *)
+  if ipanic || (iacc && negb (N.leb f t && N.leb (t - f + 1) maxb)) then V_VIOLATION
+  else if Bool.eqb (validate_block_req gen_block_order_checked gen_block_count maxb f t) iacc then V_OK else V_MISMATCH.
+
+(* tensor_compress::format sparse snapshot encoding: (dense bits, sparse form chosen?, bits decoded after a trip
+   through CompressedSnapshot serialize/deserialize, decode ok?) -- the format is lossless: same law as the
+   sparse vector (every bit pattern identical, -0.0 read back as +0.0) *)
+Definition fsparse_case := (list N * bool * list N * bool)%type.
+Definition check_fsparse (c : fsparse_case) : N :=
+  let '(d, chosen, back, ok) := c in
+  if negb chosen then V_OK
+  else if negb ok || negb (leq back (map norm_zero d)) then V_VIOLATION
+  else if leq (to_dense (from_dense d)) back then V_OK else V_MISMATCH.
